@@ -13,16 +13,17 @@ PROFILES = {
     # property -> list of (weight, profile dict)
     "C01": [(44, _p(world="mem", kinds=MF)), (22, _p(world="sim", kinds=MF_SIM, fault_kinds=["crash"])),
             (14, _p(world="local", kinds=MF, p_async_stop=0.0)),
-            # a few long experiments (380-450 trials, duplicates allowed so that the table does not run out): trial ids
+            # a few long experiments (300-400 trials, duplicates allowed so that the table does not run out): trial ids
             # beyond the small numbers, many promotions per trial
-            (1, _p(world="sim", kinds=["hb_promotion", "hb_promotion", "hb_promotion", "hb_pasha"], p_fault_free=0.7, fault_kinds=["crash"],
-                   p_no_maxres=0.9, p_allow_dup=1.0, stop_fields=["max_num_trials_started"], min_trials=380, max_trials=450, long_runs=True)), ],
+            # (not PASHA: its epsilon update compares all pairs of trials at every report and takes minutes at this size)
+            (1, _p(world="sim", kinds=["hb_promotion"], p_fault_free=0.7, fault_kinds=["crash"], max_t_choices=[3, 4, 5, 6, 8, 9, 9, 6, 5, 4],
+                   p_no_maxres=0.9, p_allow_dup=1.0, stop_fields=["max_num_trials_started"], min_trials=300, max_trials=400, long_runs=True)), ],
     "C02": [(44, _p(world="mem", kinds=MF, p_latency=0.8, p_no_ckpt_script=0.4)),
             (22, _p(world="sim", kinds=MF_SIM, p_latency=0.8, p_no_ckpt_script=0.4, p_no_maxres=0.6, fault_kinds=["crash"])),
             (14, _p(world="local", kinds=MF, p_latency=0.8, p_no_ckpt_script=0.4, p_noise=0.6, p_async_stop=0.0)),
             # a few long experiments (see C01)
-            (1, _p(world="sim", kinds=["hb_promotion", "hb_promotion", "hb_promotion", "hb_pasha"], p_fault_free=0.7, fault_kinds=["crash"],
-                   p_no_maxres=0.9, p_allow_dup=1.0, stop_fields=["max_num_trials_started"], min_trials=380, max_trials=450, long_runs=True,
+            (1, _p(world="sim", kinds=["hb_promotion"], p_fault_free=0.7, fault_kinds=["crash"], max_t_choices=[3, 4, 5, 6, 8, 9, 9, 6, 5, 4],
+                   p_no_maxres=0.9, p_allow_dup=1.0, stop_fields=["max_num_trials_started"], min_trials=300, max_trials=400, long_runs=True,
                    p_latency=0.5)), ],
     "C03": [(6, _p(world="mem", kinds=["hb_stopping", "hb_stopping", "hb_rush_stopping"], p_fault_free=0.6, p_ties=0.2,
                    fault_kinds=["crash"], max_trials=25, p_repeat_level=0.2)), ],
